@@ -90,7 +90,8 @@ Definition bootstrap (s : nstate) (tid : N) (c : config) : outcome W :=
              let c1 := mkConfig (c_nodes c) 1 1 in
              (* storage.bootstrap: appendEntry, commitLog(1), setTerm(1) *)
              s1 <~ append_entry s (mkEntry 1 1 entryConfig (enc_config_data (c_nodes c1))) ;;
-             s2 <~ set_term (commit_log s1 1) 1 ;;
+             (* storage.bootstrap: a node that already took part in an election keeps its term and vote *)
+             s2 <~ set_term (commit_log s1 1) (N.max 1 (st_term s1)) ;;   (* = the term it has, unless that is 0 *)
              let s3 := change_config (set_log s2 (st_logprev s2) (st_log s2) 1 1) c1 in
              s4 <~~ wreply s3 tid RpNil ;;
              wret (set_role s4 Candidate)
